@@ -19,7 +19,7 @@ def spec(chk):
     acts = ["Expunge", "Close", "MakeTransient", "Sp", "Get", "Misuse"]
     return dict(
         cfgs=[
-            dict(name="eoc", objs=2, maxsp=1 if q else 2, depth=7 if q else 8, ideal_depth=8 if q else 10, eoc=True, acts=acts,
+            dict(name="eoc", objs=2, maxsp=1 if q else 2, depth=7 if q else 8, ideal_depth=8 if q else 9, eoc=True, acts=acts,
                  random=200 if q else 2000, sim=(40, 20) if q else (600, 30)),
             dict(name="noeoc", objs=2 if q else 3, maxsp=1, depth=6 if q else 7, ideal_depth=7 if q else 8, eoc=False,
                  acts=["Expunge", "Close", "MakeTransient", "Get"] if q else acts, random=100 if q else 1000),
